@@ -268,7 +268,7 @@ class Ctx:
 
     def feasible(self, extra=None):
         s = z3.Solver()
-        s.set('timeout', min(self.timeout, 5000))
+        s.set('timeout', min(self.timeout, 2000))
         for c in self.pc:
             s.add(c)
         if extra is not None:
@@ -1119,6 +1119,9 @@ class Interp:
                     continue
                 ctx.prove(name + '/lemma:' + lname, lf, 'lemma')
                 ob = ctx.obligations[-1]
+                from .verify import _EXPLORE_ONLY
+                if _EXPLORE_ONLY['on']:
+                    continue
                 discharge(ob)
                 if ob.status == 'unsat' and is_sym(lf):
                     ctx.pc.append(lf)
